@@ -376,7 +376,7 @@ def run_identity_law(ctx):
             ans, same, far = rng.choice([
                 ('x^2+z*n', 'z*n+x^2', 'x^2+z*n+100'), ('rf(x)+a_{1}', 'a_{1}+rf(x)', 'rf(x)+a_{1}+100'), ('d+x', '3*x', 'd+x+100'),
                 ('abs(z)^2+x', 're(z)^2+im(z)^2+x', 'abs(z)^2+x+100'), ('a_{1}*a_{2}+n', 'n+a_{2}*a_{1}', 'a_{1}*a_{2}+n+100'),
-                ('rf(x)*rf(x)', 'rf(x)^2', 'rf(x)^2+100'), ('conj(z)*z', 'abs(z)^2', 'conj(z)*z+100*i'), ('x^n', 'x^(n-1)*x', 'x^n+100'),
+                ('rf(x)*rf(x)', 'rf(x)^2', 'rf(x)^2+100'), ('conj(z)*z', 'abs(z)^2', 'conj(z)*z+100*i'), ('x^n', 'x^(n-1)*x', '(x^n)*(1+3*i)'),
                 # a real answer missed by an IMAGINARY amount is missed all the same
                 ('x^2+n', 'n+x*x', 'x^2+n+100*i'), ('x^2+n', 'n+x^2', '(x^2+n)*(1+3*i)'), ('d+x', 'x+d', 'd+x+50*i*x'),
                 # author constants that redefine defaults (suppress_warnings) are the values the answer is computed with
